@@ -545,6 +545,73 @@ theorem custom_code_lookup_stable (ss tt : List Style) (c : Str) (n : Nat)
   | none => rw [hf] at h; cases h
   | some nf => rw [hf] at h; simpa using h
 
+/-- **component_ids_stable** (the component registries fonts / fills / borders): for EVERY registry
+with `WF`, EVERY definition and ANY later history of `NewStyle` calls, a component that is found now
+(`getFontID` / `getFillID` / `getBorderID`) is found under the same index afterwards — first-match
+lookup in append-only tables; the record `newFont` compares with depends only on `Fonts.Font[0]`,
+which never moves, and the size mutation of the caller's font is the same. So an equal font, fill or
+border never gets a second id and earlier component ids are never renumbered -/
+theorem component_ids_stable {r : Reg} (w : WF r) (ss : List Style) (s : Style) :
+    (∀ i s', getFontID r s = .ok (some i, s') → getFontID (runNew r ss) s = .ok (some i, s')) ∧
+    (∀ i, getFillID r s = some i → getFillID (runNew r ss) s = some i) ∧
+    (∀ i, getBorderID r s = some i → getBorderID (runNew r ss) s = some i) := by
+  obtain ⟨⟨ef, hf⟩, ⟨el, hl⟩, ⟨eb, hb⟩, _, _, _⟩ := ext_history w ss
+  refine ⟨?_, ?_, ?_⟩
+  · intro i s' h
+    have hne := w.fontsNe
+    unfold getFontID at h ⊢
+    cases hsf : s.font with
+    | none => rw [hsf] at h; simp at h
+    | some f =>
+      rw [hsf] at h
+      simp only at h ⊢
+      have hnf : newFont (runNew r ss) f = newFont r f := by
+        unfold newFont; rw [hf]
+        cases hr : r.fonts with
+        | nil => rw [hr] at hne; simp at hne
+        | cons d t => rfl
+      have hne' : ¬ (runNew r ss).fonts = [] := by
+        intro h0; rw [hf] at h0
+        cases hr : r.fonts with
+        | nil => rw [hr] at hne; simp at hne
+        | cons d t => rw [hr] at h0; simp at h0
+      have hne0 : ¬ r.fonts = [] := by
+        intro h0; rw [h0] at hne; simp at hne
+      rw [if_neg hne0] at h
+      rw [if_neg hne', hnf]
+      cases hn : newFont r f with
+      | error e => rw [hn] at h; simp at h
+      | ok p =>
+        obtain ⟨xf, f'⟩ := p
+        rw [hn] at h
+        simp only [Except.ok.injEq, Prod.mk.injEq] at h ⊢
+        refine ⟨?_, h.2⟩
+        rw [hf]; exact findIdx?_append_left_some _ _ _ h.1
+  · intro i h
+    unfold getFillID at h ⊢
+    split at h
+    · cases h
+    · rename_i ht
+      rw [if_neg ht]
+      cases hx : newFills s.fill with
+      | none => rw [hx] at h; cases h
+      | some x =>
+        rw [hx] at h
+        simp only at h ⊢
+        rw [hl]; exact findIdx?_append_left_some _ _ _ h
+  · intro i h
+    unfold getBorderID at h ⊢
+    split at h
+    · cases h
+    · rename_i ht
+      rw [if_neg ht, hb]; exact findIdx?_append_left_some _ _ _ h
+
+/-- non-vacuity of `component_ids_stable`: in the registry of `NewFile()` the default fill is found
+at index 0 and a font equal to `Fonts.Font[0]` at index 0 — and therefore after every history -/
+theorem component_ids_stable_example (ss : List Style) :
+    getFillID (runNew initReg ss) { zs with fill := ⟨"pattern".toList, 0, [], 0⟩ } = some 0 :=
+  (component_ids_stable wf_init ss _).2.1 0 (by decide +kernel)
+
 /-! ## the stored grid refines the three-level Spec over histories -/
 
 /-- a successful style operation on the worksheet (coordinates as after the setters' normalisation) -/
